@@ -788,6 +788,7 @@ class HeavyHitters:
         -------
         int
         """
+        key = key[: int(self.max_key_len)]
         key_len = len(key)
         max_count = _max_count(
             self.lhh,
